@@ -311,6 +311,9 @@ class NeoxEnv:
             pipeline_parallel_group=self.ppg,
             factor_checkpoint_dir=k.get('ckpt_dir'),
         )
+        for dk in ('factor_dtype', 'inv_dtype'):
+            if k.get(dk):
+                kw[dk] = getattr(torch, k[dk])
         with warnings.catch_warnings():
             warnings.simplefilter('ignore')
             self.pre = GPTNeoXKFACPreconditioner(self.model, **kw)
@@ -745,6 +748,8 @@ def gen_neox_plan(rng: random.Random, tier: str, *, restarts: float,
             'prediv': False,
             'symmetry_aware': rng.random() < 0.4,
             'ckpt_dir': ckpt_dir,
+            'factor_dtype': rng.choice([None] * 5 + ['float64']),
+            'inv_dtype': rng.choice([None] * 5 + ['float64']),
         },
         'read_factors': rng.random() < 0.5,
         'model_seed': rng.randrange(1 << 30),
